@@ -319,11 +319,11 @@ MUTANTS = [
 
 CLAIM = {
     'technique': 'must-pass-through gate analysis on verdict edges (path-sensitive class engine), call-order '
-                 'typestate, (buffer,count) pairing between read and hash/decoder consumers, tool exit gate',
+                 'typestate, (buffer,count) pairing between read and hash/decoder consumers, tool exit gate, verdict-function gates on the equal edge of a byte-wise comparison primitive (memcmp or an OR-fold helper recognised by shape)',
     'text': 'static analysis: decides clauses C02-a..e - every success exit of the header reader, of the chunk end '
             'and of the read-mode close lies on the >=1 edge of the corresponding checksum verdict; header fields '
             'are parsed only after the header gate; the bytes handed to the decoder are exactly the bytes hashed; '
-            'unzck exits 0 only through zck_close()==true. Equality with an independent decoder is not decided.',
+            'unzck exits 0 only through zck_close()==true. Equality with an independent decoder is not decided. C02-f: validate_file/header/chunk are positive only on the equal edge of a byte-wise digest comparison.',
     'note': 'trusted: clang 14 front end; gate = branch edge refining the verdict call result into {1,>1}; '
             'pairing compares access paths after substituting single-definition locals',
 }
